@@ -255,6 +255,9 @@ pub fn replay_any(_c: &str, case: &Value, known: &Known) -> Option<Outcome> {
 pub fn run(ctx: &Ctx) -> i32 {
     ctx.run_replays(|c, case| replay_any(c, case, &ctx.known));
     ctx.tape_search("one-edit", ctx.n(40_000, 1_500_000), 400, gen_case, |c| check(c, &ctx.known));
+    if !ctx.quick() {
+        ctx.fuzz_campaign("tape_c10", ctx.fuzz_secs(180), 1200);
+    }
     ctx.finish(
         "well-scoped generated programs with fully known frames (every source projected, no wildcard relation) that compile, plus exactly one scope-breaking edit: E1 reference to a base column the frame has dropped (filter / derive / sort / select / group key / join condition), E2 bare name present on both sides of a join of two known relations, E3 one surplus positional argument (take, filter, sort, aggregate, user function), E4 an unknown named argument (take, sort, join, user function), E5 a scalar where a relation is required (from, join, append); usually followed by further valid transforms. Oracle: compile returns Err. non-trivial = base has >= 3 steps; distinct = broken source",
         &["a panic is C12's subject and is not counted here", "names used for dropped columns are never names of let-tables, functions or std members of the case"],
